@@ -1,6 +1,6 @@
 PROPS["C11"] = prop(
     "exploration",
-    "rapid-generated request sequences on a fresh connection (handshake variants, independently forged token variants, basic/unknown schemes, validators on/off, suspended/deleted accounts, on-behalf-of) against a (version, user, level) state model; refused requests are diffed against the store; session 3: a working credential validator (requests, mailed restricted tokens, logins answering a confirmation request), an authenticator which reports the account state itself and runs two-stage logins, patch-level version change",
+    "rapid-generated request sequences on a fresh connection (handshake variants, independently forged token variants, basic/unknown schemes, validators on/off, suspended/deleted accounts, on-behalf-of) against a (version, user, level) state model; refused requests are diffed against the store; session 3: a working credential validator (requests, mailed restricted tokens, logins answering a confirmation request), an authenticator which reports the account state itself and runs two-stage logins, patch-level version change; after seeded round 6: harness sessions are fed through the long-polling reader (per-session lock); two logins of one session in parallel requests: at most one is accepted",
     "program = 2-12 messages from {hi with 8 version strings, login with 12 token variants / basic / unknown schemes, acc update, 14 request kinds with and without extra.obo, clock ticks}; "
     "non-trivial = the sequence reaches login and contains >=1 request that must be refused and >=1 that is served; distinct = FNV-64 of the program",
     "Every reply code, the session's resulting identity (white-box uid/level) and the store are compared with the state model after every message; published copies are checked at an observer session. Sampled.",
